@@ -44,7 +44,7 @@ CFG = dict(
                  "4": "the handler saw io.EOF before the caller half-closed, or while messages the caller had sent were still unreceived",
                  "5": "the caller saw io.EOF although its handler had not returned nil, or before having received all the handler's messages",
                  "6": "a receive failed with something else than io.EOF on a fault-free, uncancelled stream whose handler did not fail (e.g. Canceled instead of EOF)",
-                 "7": "at the end of a complete schedule an operation had never returned",
+                 "7": "at the end of a complete schedule (no action enabled any more; free-running: everything that can finish has finished) an operation had never returned",
                  "8": "an open, send or half-close failed on a stream whose handler had not returned",
                  "9": "two stream-opening envelopes on the client's transport carry the same id"},
     rule="real goat.ClientConn - in-memory FIFO wires - real goat.Server inside synctest bubbles; caller and handler programs are data. "
@@ -53,7 +53,13 @@ CFG = dict(
          "x {echo, burst, reply-after-EOF}; (A2) fault after successful completion: handler returned nil, n in 0..3 messages + OK trailer "
          "delivered to the client's transport, the slow caller has consumed p <= n of them, then the connection fails: the caller must "
          "still get the rest and io.EOF; (A3) a SendMsg parked in a blocked transport Write while the handler returns nil and the OK "
-         "trailer is processed: the receiver must see io.EOF; two services x two stream methods of each kind, each with its own handler "
+         "trailer is processed: the receiver must see io.EOF; (A4) the stream's own goroutine parked at the cs.loop.read yield point before "
+         "its first Read while the handler sends n in 0..3 messages and returns nil and everything reaches the client's transport, then "
+         "released: n messages, then io.EOF (the same placement at random in (B)); (A5) CONCURRENT handlers - a receiver goroutine "
+         "inside RecvMsg while the handler's main goroutine sends / returns: push-while-receiving (the caller waits for the n pushes before it "
+         "sends and half-closes) and return-while-receiving (the handler returns nil while its receiver goroutine is parked in RecvMsg; the "
+         "caller must get the n pushes, then io.EOF), n in 0..2, two kinds, the receiver stepped first; 1 in 6 of the streams of (B) and (C) "
+         "has such a handler (a RecvMsg of the receiver goroutine that fails after the handler returned is not an error); two services x two stream methods of each kind, each with its own handler "
          "(a wrong-handler dispatch fails the stream); (B) seeded random lock-step schedules over {user step, handler step, deliver c2s, deliver "
          "s2c, release}: 1..4 (thorough up to 32) concurrent streams x 3 kinds x counts {0,1,2,5,20} (thorough 50, 200) x caller programs "
          "{send-all-then-receive, ping-pong, concurrent sender + receiver threads, early half-close, receive-only} x handler programs "
